@@ -1,6 +1,9 @@
 (* C18: the connection manager model (Model/ConnMgr.v) refines the abstract connection map                  *)
 (* (Model/ConnMgrSpec.v); keys are unique; every protocol clause of the property; frame / isolation;         *)
 (* the receive buffer goes back to the device whatever the packet handler returns.                          *)
+(* Last part: transmissions that fail (the outcome of add_notify_wait_pop is an input of cm_step_tx): the    *)
+(* refinement of the abstract map under failure (sp_step_tx), what holds at every failure point, and the    *)
+(* four points at which the code as it stands is refuted.                                                   *)
 From VD Require Import Base.Words Base.ListUpd Model.Queue Model.Owning Model.ConnMgr Model.ConnMgrSpec
   Proofs.QueueInv Proofs.QueueReach Proofs.QueueProps Proofs.OwningProofs.
 From Coq Require Import ZArith Lia Permutation.
@@ -1603,3 +1606,835 @@ Example shutdown_history :
      (Ok (VBytes [3]), [(mkHdr 3 2 80 1000 0 1 VOP_RST 0 8 3, [])]);
      (Err (serr SE_NotConnected 0), [])].
 Proof. vm_compute. reflexivity. Qed.
+
+(* ================================================================================================ *)
+(* TRANSMISSIONS THAT FAIL                                                                          *)
+(* ================================================================================================ *)
+Definition tx_ok_in (ti : txin) : Prop := tx_err (fst ti) = None /\ tx_err (snd ti) = None.
+
+Lemma tx_ok_err t : tx_err t = None -> t = TxOk.
+Proof. destruct t; [reflexivity|discriminate|discriminate]. Qed.
+
+Lemma tx_try_ok ti p : tx_ok_in ti -> tx_try ti p = (None, [p]).
+Proof.
+  intros [H1 H2]. unfold tx_try, tx_pick. destruct (lenN (snd p) =? 0).
+  - rewrite (tx_ok_err _ H1). reflexivity.
+  - rewrite (tx_ok_err _ H2). reflexivity.
+Qed.
+
+Lemma tx_try_cases ti p :
+  (tx_err (tx_pick ti (snd p)) = None /\ tx_try ti p = (None, [p]))
+  \/ (exists e, tx_err (tx_pick ti (snd p)) = Some e /\ tx_try ti p = (Some e, tx_seen (tx_pick ti (snd p)) p)).
+Proof.
+  unfold tx_try. destruct (tx_pick ti (snd p)) as [|e|e]; cbn [tx_err tx_seen]; [left; auto|right; eauto|right; eauto].
+Qed.
+
+(* the success paths are the old functions *)
+Lemma cm_after_tx_ok ti m ev : tx_ok_in ti -> cm_after_tx ti m ev = cm_after m ev.
+Proof.
+  intros H. unfold cm_after_tx, cm_after. destruct (get_connection_for_event _ _ _) as [[i c]|]; [|reflexivity].
+  destruct (ev_type ev) as [| |sh| | |]; rewrite ?tx_try_ok by exact H; try reflexivity.
+  destruct (lenN (cn_buf c) =? 0); [|reflexivity]. destruct sh; rewrite ?tx_try_ok by exact H; reflexivity.
+Qed.
+
+Theorem cm_step_tx_ok md m o ti : tx_ok_in ti -> cm_step_tx md m o ti = cm_step md m o.
+Proof.
+  intros H. destruct o; cbn [cm_step_tx cm_step]; try reflexivity.
+  - unfold cm_connect_tx, cm_connect. destruct (existsb _ _); [reflexivity|]. cbv zeta. now rewrite tx_try_ok by exact H.
+  - unfold cm_send_tx, cm_send. destruct (get_connection _ _ _) as [[i c]|]; [|reflexivity].
+    destruct (cn_shut c); [reflexivity|]. cbv zeta. destruct (credit_peer_free _ _); [|reflexivity].
+    destruct (_ <=? _).
+    + destruct (credit_add_tx _ _ _); [|reflexivity]. now rewrite tx_try_ok by exact H.
+    + destruct (cr_pending _); [reflexivity|]. now rewrite tx_try_ok by exact H.
+  - unfold cm_recv_tx, cm_recv. destruct (get_connection _ _ _) as [[i c]|]; [|reflexivity]. cbv zeta.
+    destruct (credit_done_forwarding _ _ _); [|reflexivity]. destruct (_ && _); [|reflexivity].
+    now rewrite tx_try_ok by exact H.
+  - unfold cm_update_credit_tx, cm_update_credit. destruct (get_connection _ _ _) as [[i c]|]; [|reflexivity].
+    destruct (cn_shut c); [reflexivity|]. now rewrite tx_try_ok by exact H.
+  - unfold cm_shutdown_tx, cm_shutdown. destruct (get_connection _ _ _) as [[i c]|]; [|reflexivity].
+    now rewrite tx_try_ok by exact H.
+  - unfold cm_force_close_tx, cm_force_close. destruct (get_connection _ _ _) as [[i c]|]; [|reflexivity].
+    now rewrite tx_try_ok by exact H.
+  - unfold cm_poll_tx, cm_poll. destruct rx as [[ulen bytes]|]; [|reflexivity]. destruct (_ <? _); [reflexivity|].
+    unfold cm_rx_tx, cm_rx. destruct (read_header_and_body _) as [[h body]|]; [|reflexivity].
+    destruct (event_from_header h); [|reflexivity]. destruct (cm_handler m e body) as [m1 r].
+    destruct r as [[ev'|]| | |]; try reflexivity. now apply cm_after_tx_ok.
+Qed.
+
+Theorem sp_step_tx_ok md s o ti : tx_ok_in ti -> sp_step_tx md s o ti = sp_step md s o.
+Proof.
+  intros [H1 H2]. unfold sp_step_tx. destruct (sp_step md s o) as [[s' r] tx]. destruct tx as [|p rest]; [reflexivity|].
+  unfold tx_pick. destruct (lenN (snd p) =? 0); [rewrite H1|rewrite H2]; reflexivity.
+Qed.
+
+(* ------------------------------------------------------------------------------------------------ *)
+(* the abstract side of "this step's transmission fails", and the four points at which the code as it *)
+(* stands does not do what sp_step_tx asks for (Theorems *_refuted below)                              *)
+Definition tx_fails_at (md : mode) (s : spec) (o : cop) (ti : txin) : bool :=
+  match sp_step md s o with
+  | (_, _, p :: _) => match tx_err (tx_pick ti (snd p)) with Some _ => true | None => false end
+  | _ => false
+  end.
+
+(* a packet for this guest: a request for a connection that does not exist, or the shutdown of a drained one *)
+Definition ev_open (s : spec) (ev : event) : bool :=
+  (a_cid (ev_dst ev) =? sp_cid s)
+  && match slookup (ev_key ev) (sp_tab s), ev_type ev with
+     | None, EtRequest => true
+     | Some e, EtDisconnected true => lenN (se_buf e) =? 0
+     | _, _ => false
+     end.
+
+Definition tx_open_point (md : mode) (s : spec) (o : cop) : bool :=
+  match o with
+  | OpSend _ _ _ => match sp_step md s o with (_, Ok _, _ :: _) => true | _ => false end   (* a data packet *)
+  | OpRecv _ _ _ => match sp_step md s o with (_, _, _ :: _) => true | _ => false end      (* the closing RST *)
+  | OpPoll (Some (ulen, bytes)) =>
+      if sp_rxsz s <? ulen then false
+      else
+        match read_header_and_body (firstn (cntN ulen bytes) bytes) with
+        | inl (h, _) => ev_open s (hdr_event h)
+        | inr _ => false
+        end
+  | _ => false
+  end.
+
+(* WHAT THE CODE DOES at the open points, as an abstract rule (the other failures as in sp_step_tx): the data packet's
+   bytes are counted as sent; the bytes drained by recv are gone and the connection stays; the connection pushed
+   for a new request stays, not established; a drained connection that the peer shuts down just stays *)
+Definition sp_packet_failed_code (s : spec) (ev : event) : spec :=
+  let k : key := ev_key ev in
+  if negb (a_cid (ev_dst ev) =? sp_cid s) then s
+  else
+    match slookup k (sp_tab s) with
+    | None =>
+        match ev_type ev with
+        | EtRequest => sp_put s k (mkEntry false false [] (cr_from_packet (credit_new (sp_cap s)) (ev_buf_alloc ev) (ev_fwd_cnt ev) false))
+        | _ => s
+        end
+    | Some e => sp_put s k (se_with_cr e (cr_from_packet (se_cr e) (ev_buf_alloc ev) (ev_fwd_cnt ev) false))
+    end.
+
+Definition sp_code_fail (md : mode) (s : spec) (o : cop) : spec :=
+  match o with
+  | OpSend _ _ _ => match sp_step md s o with (s', Ok _, _) => s' | _ => s end
+  | OpRecv peer lp n =>
+      match slookup (mk_key peer lp) (sp_tab s) with
+      | Some e =>
+          let cnt := cntN n (se_buf e) in
+          match credit_done_forwarding md (se_cr e) (lenN (firstn cnt (se_buf e))) with
+          | Some cr' => sp_put s (mk_key peer lp) (se_with_cr (se_with_buf e (skipn cnt (se_buf e))) cr')
+          | None => s
+          end
+      | None => s
+      end
+  | OpPoll (Some (ulen, bytes)) =>
+      match read_header_and_body (firstn (cntN ulen bytes) bytes) with
+      | inl (h, _) => sp_packet_failed_code s (hdr_event h)
+      | inr _ => s
+      end
+  | _ => s
+  end.
+
+(* code = false: the specification; code = true: the code as it stands *)
+Definition sp_fail_state (code : bool) (md : mode) (s : spec) (o : cop) : spec :=
+  if code then sp_code_fail md s o else match o with OpPoll rx => sp_poll_failed s rx | _ => s end.
+
+Definition sp_step_txg (code : bool) (md : mode) (s : spec) (o : cop) (ti : txin) : sresult :=
+  let '(s', r, tx) := sp_step md s o in
+  match tx with
+  | [] => (s', r, tx)
+  | p :: _ =>
+      let t := tx_pick ti (snd p) in
+      match tx_err t with
+      | None => (s', r, tx)
+      | Some e => (sp_fail_state code md s o, Err e, tx_seen t p)
+      end
+  end.
+
+Lemma sp_step_txg_spec md s o ti : sp_step_txg false md s o ti = sp_step_tx md s o ti.
+Proof. reflexivity. Qed.
+
+Ltac sim_fail := cbn [sim]; split; [reflexivity|]; split; [reflexivity|]; split; assumption.
+
+Lemma connect_tx_sim code md m s peer lp ti :
+  KeysUnique m -> R m s -> sim (cm_connect_tx ti m peer lp) (sp_step_txg code md s (OpConnect peer lp) ti).
+Proof.
+  intros HK HR. unfold sp_step_txg, sp_fail_state, sp_code_fail. cbn [sp_step]. unfold cm_connect_tx, sp_connect.
+  rewrite existsb_clookup, (R_tab _ _ HR).
+  destruct (slookup (mk_key peer lp) (sp_tab s)) eqn:E; [sim_done|]. cbv zeta.
+  assert (Hp : (new_header (cn_info (conn_new peer lp (m_cap m))) (m_cid m) VOP_REQUEST 0 0, @nil N)
+               = sp_packet (sp_cid s) (mk_key peer lp) (se_cr (entry_new (sp_cap s))) VOP_REQUEST 0 0 []).
+  { rewrite packet_agree, (R_cid _ _ HR), (R_cap _ _ HR). reflexivity. }
+  rewrite Hp. set (p := sp_packet _ _ _ _ _ _ _).
+  destruct (tx_try_cases ti p) as [[He Ht]|(e & He & Ht)]; rewrite Ht, He.
+  - destruct (R_push m s (conn_new peer lp (m_cap m)) (mk_key peer lp) (entry_new (sp_cap s)) HK HR E eq_refl)
+      as [HR1 HK1]; [now rewrite <- (R_cap _ _ HR)|]. sim_fail.
+  - destruct code; sim_fail.
+Qed.
+
+Lemma send_tx_sim code md m s peer lp data ti :
+  KeysUnique m -> R m s ->
+  (code = false -> tx_fails_at md s (OpSend peer lp data) ti && tx_open_point md s (OpSend peer lp data) = false) ->
+  sim (cm_send_tx md ti m peer lp data) (sp_step_txg code md s (OpSend peer lp data) ti).
+Proof.
+  intros HK HR Hop. unfold sp_step_txg, sp_fail_state, sp_code_fail, tx_fails_at, tx_open_point in *. cbn [sp_step] in *.
+  unfold cm_send_tx, sp_send, with_entry in *. pose proof (get_sim m s peer lp HR) as H.
+  destruct (get_connection (m_conns m) peer lp) as [[i c]|]; [|rewrite H in *; sim_done].
+  destruct H as (Hn & Hk & Hs). rewrite Hs in *. cbn [se_shut entry_of se_cr] in *.
+  destruct (cn_shut c); [sim_done|]. cbv zeta.
+  destruct (credit_peer_free md (ci_cr (cn_info c))) as [pf|]; [|sim_done].
+  destruct (lenN data <=? pf).
+  - destruct (credit_add_tx md (ci_cr (cn_info c)) (w32 (lenN data))) as [cr'|]; [|sim_done].
+    rewrite packet_agree, Hk, (R_cid _ _ HR). set (p := sp_packet _ _ _ _ _ _ _) in *.
+    destruct (R_upd m s i c (set_cr c cr') (mk_key peer lp) (se_with_cr (entry_of c) cr') HK HR Hn Hk Hk eq_refl)
+      as [HR1 HK1].
+    destruct (tx_try_cases ti p) as [[He Ht]|(e & He & Ht)]; rewrite Ht; rewrite He in *; [sim_fail|].
+    destruct code; [sim_fail|discriminate (Hop eq_refl)].
+  - destruct (cr_pending (ci_cr (cn_info c))); [sim_done|].
+    rewrite packet_agree, Hk, (R_cid _ _ HR). set (p := sp_packet _ _ _ _ _ _ _) in *.
+    destruct (tx_try_cases ti p) as [[He Ht]|(e & He & Ht)]; rewrite Ht, He; [|destruct code; sim_fail].
+    destruct (R_upd m s i c (set_cr c (credit_set_pending (ci_cr (cn_info c)))) (mk_key peer lp)
+                (se_with_cr (entry_of c) (credit_set_pending (ci_cr (cn_info c)))) HK HR Hn Hk Hk eq_refl)
+      as [HR1 HK1]. sim_fail.
+Qed.
+
+Lemma recv_tx_sim code md m s peer lp n ti :
+  KeysUnique m -> R m s ->
+  (code = false -> tx_fails_at md s (OpRecv peer lp n) ti && tx_open_point md s (OpRecv peer lp n) = false) ->
+  sim (cm_recv_tx md ti m peer lp n) (sp_step_txg code md s (OpRecv peer lp n) ti).
+Proof.
+  intros HK HR Hop. unfold sp_step_txg, sp_fail_state, sp_code_fail, tx_fails_at, tx_open_point in *. cbn [sp_step] in *.
+  unfold cm_recv_tx, sp_recv, with_entry in *. pose proof (get_sim m s peer lp HR) as H.
+  destruct (get_connection (m_conns m) peer lp) as [[i c]|]; [|rewrite H in *; sim_done].
+  destruct H as (Hn & Hk & Hs). rewrite Hs in *.
+  cbn [se_shut entry_of se_cr se_buf set_buf set_cr cn_info ci_cr cn_buf cn_shut ci_dst ci_src_port] in *.
+  set (k := cntN n (cn_buf c)) in *.
+  destruct (credit_done_forwarding md (ci_cr (cn_info c)) (lenN (firstn k (cn_buf c)))) as [cr'|].
+  - destruct (R_upd m s i c (set_cr (set_buf c (skipn k (cn_buf c))) cr') (mk_key peer lp)
+                (se_with_cr (se_with_buf (entry_of c) (skipn k (cn_buf c))) cr') HK HR Hn Hk Hk eq_refl)
+      as [HRu HKu].
+    destruct (cn_shut c && (lenN (skipn k (cn_buf c)) =? 0)).
+    + change (mkInfo (ci_dst (cn_info c)) (ci_src_port (cn_info c)) cr')
+        with (cn_info (set_cr (set_buf c (skipn k (cn_buf c))) cr')).
+      rewrite packet_agree. change (conn_key (set_cr (set_buf c (skipn k (cn_buf c))) cr')) with (conn_key c).
+      rewrite Hk, (R_cid _ _ HR). cbn [set_cr cn_info ci_cr]. set (p := sp_packet _ _ _ _ _ _ _) in *.
+      destruct (tx_try_cases ti p) as [[He Ht]|(e & He & Ht)]; rewrite Ht; rewrite He in *.
+      * destruct (R_swap_upd m s i c (set_cr (set_buf c (skipn k (cn_buf c))) cr') (mk_key peer lp) HK HR Hn Hk Hk)
+          as [HR1 HK1]. sim_fail.
+      * destruct code; [sim_fail|discriminate (Hop eq_refl)].
+    + cbn [sim]. auto.
+  - destruct (R_upd m s i c (set_buf c (skipn k (cn_buf c))) (mk_key peer lp)
+                (se_with_buf (entry_of c) (skipn k (cn_buf c))) HK HR Hn Hk Hk eq_refl) as [HR1 HK1].
+    cbn [sim]. auto.
+Qed.
+
+Lemma update_credit_tx_sim code md m s peer lp ti :
+  KeysUnique m -> R m s -> sim (cm_update_credit_tx ti m peer lp) (sp_step_txg code md s (OpUpdateCredit peer lp) ti).
+Proof.
+  intros HK HR. unfold sp_step_txg, sp_fail_state, sp_code_fail. cbn [sp_step].
+  unfold cm_update_credit_tx, sp_update_credit, with_entry. pose proof (get_sim m s peer lp HR) as H.
+  destruct (get_connection (m_conns m) peer lp) as [[i c]|]; [|rewrite H; sim_done].
+  destruct H as (Hn & Hk & Hs). rewrite Hs. cbn [se_shut entry_of se_cr]. destruct (cn_shut c); [sim_done|].
+  rewrite packet_agree, Hk, (R_cid _ _ HR). set (p := sp_packet _ _ _ _ _ _ _).
+  destruct (tx_try_cases ti p) as [[He Ht]|(e & He & Ht)]; rewrite Ht, He; [|destruct code]; sim_fail.
+Qed.
+
+Lemma shutdown_tx_sim code md m s peer lp ti :
+  KeysUnique m -> R m s -> sim (cm_shutdown_tx ti m peer lp) (sp_step_txg code md s (OpShutdown peer lp) ti).
+Proof.
+  intros HK HR. unfold sp_step_txg, sp_fail_state, sp_code_fail. cbn [sp_step].
+  unfold cm_shutdown_tx, sp_shutdown, with_entry. pose proof (get_sim m s peer lp HR) as H.
+  destruct (get_connection (m_conns m) peer lp) as [[i c]|]; [|rewrite H; sim_done].
+  destruct H as (Hn & Hk & Hs). rewrite Hs. cbn [se_shut entry_of se_cr].
+  rewrite packet_agree, Hk, (R_cid _ _ HR). set (p := sp_packet _ _ _ _ _ _ _).
+  destruct (tx_try_cases ti p) as [[He Ht]|(e & He & Ht)]; rewrite Ht, He; [|destruct code]; sim_fail.
+Qed.
+
+Lemma force_close_tx_sim code md m s peer lp ti :
+  KeysUnique m -> R m s -> sim (cm_force_close_tx ti m peer lp) (sp_step_txg code md s (OpForceClose peer lp) ti).
+Proof.
+  intros HK HR. unfold sp_step_txg, sp_fail_state, sp_code_fail. cbn [sp_step].
+  unfold cm_force_close_tx, sp_force_close, with_entry. pose proof (get_sim m s peer lp HR) as H.
+  destruct (get_connection (m_conns m) peer lp) as [[i c]|]; [|rewrite H; sim_done].
+  destruct H as (Hn & Hk & Hs). rewrite Hs. cbn [se_shut entry_of se_cr].
+  rewrite packet_agree, Hk, (R_cid _ _ HR). set (p := sp_packet _ _ _ _ _ _ _).
+  destruct (tx_try_cases ti p) as [[He Ht]|(e & He & Ht)]; rewrite Ht, He; [|destruct code; sim_fail].
+  destruct (R_swap m s i c (mk_key peer lp) HK HR Hn Hk) as [HR1 HK1]. sim_fail.
+Qed.
+
+(* ---- packets whose reply cannot be sent ---- *)
+Definition cm_on_event_tx (ti : txin) (m : cm) (ev : event) (body : list N) : result :=
+  let '(m1, r) := cm_handler m ev body in
+  match r with
+  | Ok (Some ev') => cm_after_tx ti m1 ev'
+  | Ok None => (m1, Ok (VEvent None), [])
+  | Err e => (m1, Err e, [])
+  | Panic => (m1, Panic, [])
+  | UB => (m1, UB, [])
+  end.
+
+Definition sp_on_packet_txg (code : bool) (s : spec) (ev : event) (body : list N) (ti : txin) : sresult :=
+  let '(s', r, tx) := sp_on_packet s ev body in
+  match tx with
+  | [] => (s', r, tx)
+  | p :: _ =>
+      match tx_err (tx_pick ti (snd p)) with
+      | None => (s', r, tx)
+      | Some e => (if code then sp_packet_failed_code s ev else sp_packet_failed s ev, Err e, tx_seen (tx_pick ti (snd p)) p)
+      end
+  end.
+
+Definition ev_fails (s : spec) (ev : event) (body : list N) (ti : txin) : bool :=
+  match sp_on_packet s ev body with
+  | (_, _, p :: _) => match tx_err (tx_pick ti (snd p)) with Some _ => true | None => false end
+  | _ => false
+  end.
+
+Lemma on_event_tx_sim code m s ev body ti :
+  KeysUnique m -> R m s -> (code = false -> ev_fails s ev body ti && ev_open s ev = false) ->
+  sim (cm_on_event_tx ti m ev body) (sp_on_packet_txg code s ev body ti).
+Proof.
+  intros HK HR Hop.
+  unfold cm_on_event_tx, cm_handler, sp_on_packet_txg, ev_fails, ev_open, sp_packet_failed, sp_packet_failed_code, sp_on_packet in *.
+  rewrite for_event_key.
+  rewrite (R_cid _ _ HR). change (a_cid (ev_src ev), a_port (ev_src ev), a_port (ev_dst ev)) with (ev_key ev) in *.
+  destruct (a_cid (ev_dst ev) =? sp_cid s) eqn:Ecid; cbn [negb] in *.
+  2:{ destruct (ev_type ev); sim_done. }
+  assert (Ecid' : a_cid (ev_dst ev) =? m_cid m = true) by now rewrite (R_cid _ _ HR).
+  pose proof (find_key_spec (ev_key ev) (m_conns m)) as H.
+  destruct (find_key (ev_key ev) (m_conns m)) as [[i c]|] eqn:F.
+  - (* a known connection *)
+    destruct H as (Hn & Hk & Hl). rewrite (R_tab _ _ HR) in Hl. rewrite Hl in *.
+    set (cr1 := credit_update_for_event (ci_cr (cn_info c)) ev).
+    assert (Hcr : forall b, ev_type ev <> EtCreditUpdate \/ b = true ->
+                  (b = true -> ev_type ev = EtCreditUpdate) ->
+                  cr1 = cr_from_packet (se_cr (entry_of c)) (ev_buf_alloc ev) (ev_fwd_cnt ev) b).
+    { intros b Hb Hb'. unfold cr1, credit_update_for_event, cr_from_packet. cbn [se_cr entry_of]. f_equal.
+      destruct b.
+      - now rewrite (Hb' eq_refl).
+      - destruct Hb as [Hb|Hb]; [|discriminate]. destruct (ev_type ev); try reflexivity. congruence. }
+    assert (Hk1 : forall c', conn_key c' = conn_key c -> conn_key c' = ev_key ev) by (intros; congruence).
+    destruct (ev_type ev) eqn:Et.
+    + (* request for an existing key *)
+      rewrite (Hcr false) in * by (try (left; discriminate); discriminate).
+      set (c1 := set_cr c _) in *.
+      assert (F1 : find_key (ev_key ev) (upd (m_conns m) i c1) = Some (i, c1)) by (apply (find_key_upd _ _ _ c); auto).
+      unfold cm_after_tx. cbn [set_conns m_conns m_cid m_listen].
+      rewrite (after_found (upd (m_conns m) i c1) (m_cid m) ev i c1 Ecid' F1), Et, (R_listen _ _ HR).
+      destruct (R_upd m s i c c1 (ev_key ev) _ HK HR Hn Hk (Hk1 _ eq_refl) eq_refl) as [HRf HKf].
+      destruct (memN (a_port (ev_dst ev)) (sp_listen s)).
+      * rewrite packet_agree. change (conn_key c1) with (conn_key c). rewrite Hk, (R_cid _ _ HR).
+        change (ci_cr (cn_info c1)) with (cr_from_packet (se_cr (entry_of c)) (ev_buf_alloc ev) (ev_fwd_cnt ev) false).
+        set (p := sp_packet _ _ _ _ _ _ _) in *.
+        destruct (tx_try_cases ti p) as [[He Ht]|(e & He & Ht)]; rewrite Ht, He; [|destruct code; sim_fail].
+        rewrite upd_upd.
+        destruct (R_upd m s i c (set_est c1) (ev_key ev) _ HK HR Hn Hk (Hk1 _ eq_refl) eq_refl) as [HR1 HK1]. sim_fail.
+      * rewrite packet_agree. change (conn_key c1) with (conn_key c). rewrite Hk, (R_cid _ _ HR).
+        change (ci_cr (cn_info c1)) with (cr_from_packet (se_cr (entry_of c)) (ev_buf_alloc ev) (ev_fwd_cnt ev) false).
+        set (p := sp_packet _ _ _ _ _ _ _) in *.
+        destruct (tx_try_cases ti p) as [[He Ht]|(e & He & Ht)]; rewrite Ht, He; [|destruct code; sim_fail].
+        destruct (R_swap_upd m s i c c1 (ev_key ev) HK HR Hn Hk (Hk1 _ eq_refl)) as [HR1 HK1]. sim_fail.
+    + (* response *)
+      rewrite (Hcr false) in * by (try (left; discriminate); discriminate).
+      set (c1 := set_cr c _).
+      assert (F1 : find_key (ev_key ev) (upd (m_conns m) i c1) = Some (i, c1)) by (apply (find_key_upd _ _ _ c); auto).
+      unfold cm_after_tx. cbn [set_conns m_conns m_cid m_listen].
+      rewrite (after_found (upd (m_conns m) i c1) (m_cid m) ev i c1 Ecid' F1), Et.
+      rewrite upd_upd.
+      destruct (R_upd m s i c (set_est c1) (ev_key ev) _ HK HR Hn Hk (Hk1 _ eq_refl) eq_refl) as [HR1 HK1].
+      cbn [sim]. auto.
+    + (* reset / shutdown from the peer *)
+      rewrite (Hcr false) in * by (try (left; discriminate); discriminate).
+      set (c1 := set_cr c _) in *.
+      assert (F1 : find_key (ev_key ev) (upd (m_conns m) i c1) = Some (i, c1)) by (apply (find_key_upd _ _ _ c); auto).
+      unfold cm_after_tx. cbn [set_conns m_conns m_cid m_listen].
+      rewrite (after_found (upd (m_conns m) i c1) (m_cid m) ev i c1 Ecid' F1), Et.
+      change (cn_buf c1) with (cn_buf c). change (se_buf (entry_of c)) with (cn_buf c) in *.
+      destruct (R_upd m s i c c1 (ev_key ev) _ HK HR Hn Hk (Hk1 _ eq_refl) eq_refl) as [HRf HKf].
+      destruct (lenN (cn_buf c) =? 0).
+      * destruct (R_swap_upd m s i c c1 (ev_key ev) HK HR Hn Hk (Hk1 _ eq_refl)) as [HR1 HK1].
+        destruct shutdown; [|sim_fail].
+        rewrite packet_agree. change (conn_key c1) with (conn_key c). rewrite Hk, (R_cid _ _ HR).
+        change (ci_cr (cn_info c1)) with (cr_from_packet (se_cr (entry_of c)) (ev_buf_alloc ev) (ev_fwd_cnt ev) false).
+        set (p := sp_packet _ _ _ _ _ _ _) in *.
+        destruct (tx_try_cases ti p) as [[He Ht]|(e & He & Ht)]; rewrite Ht; rewrite He in *; [sim_fail|].
+        destruct code; [sim_fail|discriminate (Hop eq_refl)].
+      * rewrite upd_upd.
+        destruct (R_upd m s i c (set_shut c1) (ev_key ev) _ HK HR Hn Hk (Hk1 _ eq_refl) eq_refl) as [HR1 HK1].
+        cbn [sim]. auto.
+    + (* data *)
+      rewrite (Hcr false) in * by (try (left; discriminate); discriminate).
+      set (c1 := set_cr c _).
+      unfold rb_add. change (cn_buf c1) with (cn_buf c). change (se_buf (entry_of c)) with (cn_buf c).
+      rewrite (R_cap _ _ HR).
+      destruct (sp_cap s - lenN (cn_buf c) <? lenN body).
+      * destruct (R_upd m s i c c1 (ev_key ev) _ HK HR Hn Hk (Hk1 _ eq_refl) eq_refl) as [HR1 HK1].
+        cbn [sim]. auto.
+      * set (c2 := set_buf c1 (cn_buf c ++ body)).
+        assert (F1 : find_key (ev_key ev) (upd (m_conns m) i c2) = Some (i, c2)) by (apply (find_key_upd _ _ _ c); auto).
+        unfold cm_after_tx. cbn [set_conns m_conns m_cid m_listen].
+        rewrite (after_found (upd (m_conns m) i c2) (m_cid m) ev i c2 Ecid' F1), Et.
+        destruct (R_upd m s i c c2 (ev_key ev) _ HK HR Hn Hk (Hk1 _ eq_refl) eq_refl) as [HR1 HK1].
+        cbn [sim]. auto.
+    + (* credit request *)
+      rewrite (Hcr false) in * by (try (left; discriminate); discriminate).
+      set (c1 := set_cr c _) in *.
+      assert (F1 : find_key (ev_key ev) (upd (m_conns m) i c1) = Some (i, c1)) by (apply (find_key_upd _ _ _ c); auto).
+      unfold cm_after_tx. cbn [set_conns m_conns m_cid m_listen].
+      rewrite (after_found (upd (m_conns m) i c1) (m_cid m) ev i c1 Ecid' F1), Et.
+      destruct (R_upd m s i c c1 (ev_key ev) _ HK HR Hn Hk (Hk1 _ eq_refl) eq_refl) as [HR1 HK1].
+      rewrite packet_agree. change (conn_key c1) with (conn_key c). rewrite Hk, (R_cid _ _ HR).
+      change (ci_cr (cn_info c1)) with (cr_from_packet (se_cr (entry_of c)) (ev_buf_alloc ev) (ev_fwd_cnt ev) false).
+      set (p := sp_packet _ _ _ _ _ _ _) in *.
+      destruct (tx_try_cases ti p) as [[He Ht]|(e & He & Ht)]; rewrite Ht, He; [|destruct code]; sim_fail.
+    + (* credit update *)
+      rewrite (Hcr true) in * by auto.
+      set (c1 := set_cr c _).
+      assert (F1 : find_key (ev_key ev) (upd (m_conns m) i c1) = Some (i, c1)) by (apply (find_key_upd _ _ _ c); auto).
+      unfold cm_after_tx. cbn [set_conns m_conns m_cid m_listen].
+      rewrite (after_found (upd (m_conns m) i c1) (m_cid m) ev i c1 Ecid' F1), Et.
+      destruct (R_upd m s i c c1 (ev_key ev) _ HK HR Hn Hk (Hk1 _ eq_refl) eq_refl) as [HR1 HK1].
+      cbn [sim]. auto.
+  - (* no such connection *)
+    rewrite (R_tab _ _ HR) in H. rewrite H in *.
+    destruct (ev_type ev) eqn:Et; try sim_done.
+    set (c0 := conn_new (ev_src ev) (a_port (ev_dst ev)) (m_cap m)).
+    rewrite upd_app_last.
+    set (c1 := set_cr c0 _).
+    assert (Hk1 : conn_key c1 = ev_key ev) by reflexivity.
+    assert (Hl : clookup (ev_key ev) (m_conns m) = None) by now rewrite (R_tab _ _ HR).
+    unfold cm_after_tx. cbn [set_conns m_conns m_cid m_listen].
+    rewrite (after_found (m_conns m ++ [c1]) (m_cid m) ev (length (m_conns m)) c1 Ecid'
+               (find_key_app_last _ _ _ Hl Hk1)), Et, (R_listen _ _ HR).
+    assert (Hcr : ci_cr (cn_info c1) = cr_from_packet (credit_new (sp_cap s)) (ev_buf_alloc ev) (ev_fwd_cnt ev) false).
+    { unfold c1, c0, conn_new, set_cr, credit_update_for_event, cr_from_packet, credit_new.
+      cbn [cn_info ci_cr cr_tx_cnt cr_buf_alloc cr_fwd_cnt cr_pending]. rewrite Et, (R_cap _ _ HR). reflexivity. }
+    (* the connection the closure has pushed, as it stays behind when the reply cannot be sent *)
+    destruct (R_push m s c1 (ev_key ev) (mkEntry false false [] (ci_cr (cn_info c1))) HK HR H eq_refl eq_refl)
+      as [HRf HKf].
+    rewrite Hcr in HRf.
+    destruct (memN (a_port (ev_dst ev)) (sp_listen s)).
+    + rewrite packet_agree, Hk1, (R_cid _ _ HR), Hcr. set (p := sp_packet _ _ _ _ _ _ _) in *.
+      destruct (tx_try_cases ti p) as [[He Ht]|(e & He & Ht)]; rewrite Ht; rewrite He in *.
+      * rewrite upd_app_last.
+        destruct (R_push m s (set_est c1) (ev_key ev) (mkEntry true false [] (ci_cr (cn_info c1))) HK HR H eq_refl eq_refl)
+          as [HR1 HK1].
+        rewrite Hcr in HR1. sim_fail.
+      * destruct code; [sim_fail|discriminate (Hop eq_refl)].
+    + rewrite packet_agree, Hk1, (R_cid _ _ HR), Hcr. set (p := sp_packet _ _ _ _ _ _ _) in *.
+      destruct (tx_try_cases ti p) as [[He Ht]|(e & He & Ht)]; rewrite Ht; rewrite He in *.
+      * rewrite swap_remove_app_last.
+        cbn [sim]. split; [reflexivity|]. split; [reflexivity|].
+        split; [|exact HK]. destruct HR; constructor; assumption.
+      * destruct code; [sim_fail|discriminate (Hop eq_refl)].
+Qed.
+
+Lemma poll_tx_sim code md m s rx ti :
+  KeysUnique m -> R m s -> (code = false -> tx_fails_at md s (OpPoll rx) ti && tx_open_point md s (OpPoll rx) = false) ->
+  sim (cm_poll_tx ti m rx) (sp_step_txg code md s (OpPoll rx) ti).
+Proof.
+  intros HK HR Hop. unfold sp_step_txg, sp_fail_state, sp_code_fail, tx_fails_at, tx_open_point in *. cbn [sp_step] in *.
+  unfold cm_poll_tx, sp_poll, sp_poll_failed in *. destruct rx as [[ulen bytes]|]; [|sim_done].
+  rewrite (R_rxsz _ _ HR). destruct (sp_rxsz s <? ulen); [sim_done|].
+  unfold cm_rx_tx. destruct (read_header_and_body _) as [[h body]|e]; [|sim_done].
+  unfold sp_rx in *. rewrite efh_cases.
+  destruct (vh_op h =? 0); [sim_done|]. destruct (7 <? vh_op h); [sim_done|].
+  destruct (negb (vh_op h =? 5) && negb (vh_len h =? 0)); [sim_done|].
+  pose proof (on_event_tx_sim code m s (hdr_event h) body ti HK HR Hop) as Hs.
+  unfold cm_on_event_tx, sp_on_packet_txg in Hs. destruct code; exact Hs.
+Qed.
+
+(* one step with the fate of its transmission as an input is one step of the abstract map under failure:
+   code = false: of the SPECIFICATION sp_step_tx, unless the transmission fails at one of the four open points;
+   code = true: of the rule that describes the code as it stands, always *)
+Lemma step_txg_refines code md m s o ti :
+  KeysUnique m -> R m s -> (code = false -> tx_fails_at md s o ti && tx_open_point md s o = false) ->
+  sim (cm_step_tx md m o ti) (sp_step_txg code md s o ti).
+Proof.
+  intros HK HR Hop. destruct o; cbn [cm_step_tx].
+  - unfold sp_step_txg. cbn [sp_step cm_step]. destruct (listen_sim m s p HK HR). sim_done.
+  - unfold sp_step_txg. cbn [sp_step cm_step]. destruct (unlisten_sim m s p HK HR). sim_done.
+  - now apply connect_tx_sim.
+  - now apply send_tx_sim.
+  - now apply recv_tx_sim.
+  - unfold sp_step_txg. cbn [sp_step cm_step].
+    pose proof (avail_sim m s peer lp HK HR) as H. unfold sp_avail, with_entry in *.
+    destruct (slookup _ _); exact H.
+  - unfold sp_step_txg. cbn [sp_step cm_step].
+    pose proof (established_sim m s peer lp HK HR) as H. unfold sp_established, with_entry in *.
+    destruct (slookup _ _); exact H.
+  - now apply update_credit_tx_sim.
+  - now apply shutdown_tx_sim.
+  - now apply force_close_tx_sim.
+  - unfold sp_step_txg. cbn [sp_step cm_step]. rewrite (port_used_sim m s p HR). sim_done.
+  - now apply poll_tx_sim.
+Qed.
+
+Theorem step_tx_refines md m s o ti :
+  KeysUnique m -> R m s -> tx_fails_at md s o ti && tx_open_point md s o = false ->
+  sim (cm_step_tx md m o ti) (sp_step_tx md s o ti).
+Proof. intros HK HR Hop. exact (step_txg_refines false md m s o ti HK HR (fun _ => Hop)). Qed.
+
+Theorem step_tx_code_refines md m s o ti :
+  KeysUnique m -> R m s -> sim (cm_step_tx md m o ti) (sp_step_txg true md s o ti).
+Proof. intros HK HR. apply step_txg_refines; [exact HK|exact HR|discriminate]. Qed.
+
+(* histories with failures: as long as no transmission fails at an open point *)
+Fixpoint tx_conforming (md : mode) (s : spec) (ops : list (cop * txin)) : bool :=
+  match ops with
+  | [] => true
+  | (o, ti) :: rest =>
+      negb (tx_fails_at md s o ti && tx_open_point md s o)
+      && tx_conforming md (fst (fst (sp_step_tx md s o ti))) rest
+  end.
+
+Theorem run_tx_refines md ops : forall m s,
+  KeysUnique m -> R m s -> tx_conforming md s ops = true ->
+  snd (cm_run_tx md m ops) = snd (sp_run_tx md s ops)
+  /\ R (fst (cm_run_tx md m ops)) (fst (sp_run_tx md s ops))
+  /\ KeysUnique (fst (cm_run_tx md m ops)).
+Proof.
+  induction ops as [|[o ti] rest IH]; intros m s HK HR Hc; cbn [cm_run_tx sp_run_tx]; [auto|].
+  cbn [tx_conforming] in Hc. apply andb_prop in Hc. destruct Hc as [Hc1 Hc2]. apply negb_true_iff in Hc1.
+  pose proof (step_tx_refines md m s o ti HK HR Hc1) as H.
+  destruct (cm_step_tx md m o ti) as [[m1 r] tx]. destruct (sp_step_tx md s o ti) as [[s1 r'] tx'].
+  cbn [sim] in H. destruct H as (<- & <- & HR1 & HK1). cbn [fst] in Hc2.
+  specialize (IH m1 s1 HK1 HR1 Hc2).
+  destruct (cm_run_tx md m1 rest) as [m2 outs]. destruct (sp_run_tx md s1 rest) as [s2 outs'].
+  cbn [fst snd] in *. destruct IH as (-> & HR2 & HK2). auto.
+Qed.
+
+(* ------------------------------------------------------------------------------------------------ *)
+(* what holds at EVERY failure point, the open ones included (through the rule that describes the code) *)
+Lemma via_spec_tx md m o ti m' r tx :
+  KeysUnique m -> cm_step_tx md m o ti = (m', r, tx) ->
+  exists s', sp_step_txg true md (abs m) o ti = (s', r, tx) /\ R m' s' /\ KeysUnique m'.
+Proof.
+  intros HK H. pose proof (step_tx_code_refines md m (abs m) o ti HK (R_abs m)) as Hs. rewrite H in Hs.
+  destruct (sp_step_txg true md (abs m) o ti) as [[s' r'] tx']. cbn [sim] in Hs. destruct Hs as (-> & -> & HR & HK').
+  eauto.
+Qed.
+
+(* C18_txfail_keys_unique: the keys stay unique along every history, whatever fails *)
+Theorem run_tx_keys md ops : forall m, KeysUnique m -> KeysUnique (fst (cm_run_tx md m ops)).
+Proof.
+  induction ops as [|[o ti] rest IH]; intros m HK; cbn [cm_run_tx]; [exact HK|].
+  destruct (cm_step_tx md m o ti) as [[m1 r] tx] eqn:E.
+  destruct (via_spec_tx md m o ti m1 r tx HK E) as (s' & _ & _ & HK1).
+  specialize (IH m1 HK1). destruct (cm_run_tx md m1 rest) as [m2 outs]. exact IH.
+Qed.
+
+Theorem keys_unique_tx md cid cap rxsz ops :
+  NoDup (map conn_key (m_conns (fst (cm_run_tx md (cm_new cid cap rxsz) ops)))).
+Proof. exact (run_tx_keys md ops _ (KeysUnique_new cid cap rxsz)). Qed.
+
+Lemma sp_put_other s k e k' : k <> k' -> slookup k' (sp_tab (sp_put s k e)) = slookup k' (sp_tab s).
+Proof.
+  intros Hne. cbn [sp_put sp_with_tab sp_tab]. rewrite slookup_sset. destruct (key_eqb_spec k k'); [congruence|reflexivity].
+Qed.
+
+Lemma sp_packet_failed_frame (code : bool) s ev k' :
+  (a_cid (ev_dst ev) =? sp_cid s) = true -> ev_key ev <> k' ->
+  slookup k' (sp_tab (if code then sp_packet_failed_code s ev else sp_packet_failed s ev)) = slookup k' (sp_tab s).
+Proof.
+  intros Ec Hne. unfold sp_packet_failed_code, sp_packet_failed.
+  change (a_cid (ev_src ev), a_port (ev_src ev), a_port (ev_dst ev)) with (ev_key ev).
+  rewrite Ec. cbn [negb].
+  destruct code; destruct (slookup (ev_key ev) (sp_tab s)); try reflexivity; try (apply sp_put_other; exact Hne).
+  destruct (ev_type ev); try reflexivity. apply sp_put_other; exact Hne.
+Qed.
+
+Lemma sp_packet_failed_foreign (code : bool) s ev :
+  (a_cid (ev_dst ev) =? sp_cid s) = false -> (if code then sp_packet_failed_code s ev else sp_packet_failed s ev) = s.
+Proof. intros Ec. unfold sp_packet_failed_code, sp_packet_failed. rewrite Ec. destruct code; reflexivity. Qed.
+
+Lemma sp_fail_state_frame code md s o k' :
+  op_key (sp_cid s) o <> Some k' -> slookup k' (sp_tab (sp_fail_state code md s o)) = slookup k' (sp_tab s).
+Proof.
+  intros Hk. unfold sp_fail_state.
+  destruct o; try (destruct code; reflexivity).
+  - (* send *)
+    destruct code; [|reflexivity]. unfold sp_code_fail.
+    destruct (sp_step md s (OpSend peer lp data)) as [[s' r] tx] eqn:E. destruct r; try reflexivity.
+    exact (sp_frame md s _ s' _ tx E k' Hk).
+  - (* recv *)
+    destruct code; [|reflexivity]. unfold sp_code_fail. cbn [op_key] in Hk.
+    destruct (slookup (mk_key peer lp) (sp_tab s)); [|reflexivity]. cbv zeta.
+    destruct (credit_done_forwarding _ _ _); [|reflexivity]. apply sp_put_other. congruence.
+  - (* poll *)
+    assert (Hgoal : forall ulen bytes, rx = Some (ulen, bytes) ->
+              slookup k' (sp_tab (match read_header_and_body (firstn (cntN ulen bytes) bytes) with
+                                  | inl (h, _) => if code then sp_packet_failed_code s (hdr_event h) else sp_packet_failed s (hdr_event h)
+                                  | inr _ => s end)) = slookup k' (sp_tab s)).
+    { intros ulen bytes ->. cbn [op_key] in Hk. destruct (read_header_and_body _) as [[h body]|]; [|reflexivity].
+      destruct (vh_dst_cid h =? sp_cid s) eqn:Ec.
+      - apply sp_packet_failed_frame; [exact Ec|]. intros E. apply Hk. rewrite <- E. reflexivity.
+      - rewrite (sp_packet_failed_foreign code s (hdr_event h) Ec). reflexivity. }
+    destruct rx as [[ulen bytes]|]; [|destruct code; reflexivity].
+    specialize (Hgoal ulen bytes eq_refl). unfold sp_code_fail, sp_poll_failed.
+    destruct code; destruct (read_header_and_body _) as [[h body]|]; exact Hgoal.
+Qed.
+
+Lemma sp_txg_frame code md s o ti s' r tx :
+  sp_step_txg code md s o ti = (s', r, tx) ->
+  forall k', op_key (sp_cid s) o <> Some k' -> slookup k' (sp_tab s') = slookup k' (sp_tab s).
+Proof.
+  intros H k' Hk. unfold sp_step_txg in H. destruct (sp_step md s o) as [[s0 r0] tx0] eqn:E.
+  destruct tx0 as [|p rest].
+  - injection H as <- <- <-. exact (sp_frame md s o s0 r0 [] E k' Hk).
+  - destruct (tx_err (tx_pick ti (snd p))).
+    + injection H as <- <- <-. now apply sp_fail_state_frame.
+    + injection H as <- <- <-. exact (sp_frame md s o s0 r0 _ E k' Hk).
+Qed.
+
+(* C18_txfail_isolation: whatever fails, at whatever point, for whatever key: every OTHER connection - flags, buffer,
+   all counters - is exactly as before, and so are the listening ports *)
+Theorem isolation_tx md m o ti m' r tx :
+  KeysUnique m -> cm_step_tx md m o ti = (m', r, tx) ->
+  forall k', op_key (m_cid m) o <> Some k' -> entry m' k' = entry m k'.
+Proof.
+  intros HK H k' Hk. destruct (via_spec_tx _ _ _ _ _ _ _ HK H) as (s' & Hs & HR' & _).
+  unfold entry. rewrite (R_tab _ _ HR'), (sp_txg_frame true md _ _ _ _ _ _ Hs k' Hk). apply entry_abs.
+Qed.
+
+(* ------------------------------------------------------------------------------------------------ *)
+(* The clauses, on the implementation model, for every state with unique keys (hence every reachable one) *)
+
+(* C18_txfail_connect: a connect whose request cannot be sent leaves NO connection behind: the manager is exactly as
+   before (so the port is free, every operation on the key says NotConnected, packets "for it" match nothing, and
+   the connect can be tried again: C18_connect_fresh applies to m' = m) *)
+Theorem connect_fail_no_connection md m peer lp ti e m' r tx :
+  entry m (mk_key peer lp) = None -> tx_err (fst ti) = Some e ->
+  cm_step_tx md m (OpConnect peer lp) ti = (m', r, tx) ->
+  m' = m /\ r = Err e /\ entry m' (mk_key peer lp) = None
+  /\ tx = tx_seen (fst ti) (packet_for m (mk_key peer lp) VOP_REQUEST 0 (m_cap m) 0).
+Proof.
+  intros He Hf H. cbn [cm_step_tx] in H. unfold cm_connect_tx in H. rewrite existsb_clookup in H.
+  unfold entry in He. rewrite He in H. cbv zeta in H. unfold tx_try, tx_pick in H. cbn [snd lenN length N.of_nat N.eqb] in H.
+  rewrite Hf in H. injection H as <- <- <-. repeat split; auto.
+Qed.
+
+(* C18_txfail_local: update_credit, shutdown, force_close, connect, and a send that has to ask for credit: when the
+   transmission fails the manager is exactly as before and the error is the tx queue's *)
+Definition header_only_op (o : cop) : bool :=
+  match o with OpConnect _ _ | OpUpdateCredit _ _ | OpShutdown _ _ | OpForceClose _ _ => true | _ => false end.
+
+Theorem local_fail_atomic md m o ti e m' r tx :
+  header_only_op o = true -> tx_err (fst ti) = Some e ->
+  cm_step_tx md m o ti = (m', r, tx) ->
+  m' = m /\ (r = Err e \/ (tx = [] /\ cm_step md m o = (m, r, []))).
+Proof.
+  intros Ho Hf H. destruct o; try discriminate Ho; cbn [cm_step_tx cm_step] in *.
+  - unfold cm_connect_tx, cm_connect in *. destruct (existsb _ _); [injection H as <- <- <-; auto|].
+    cbv zeta in H. unfold tx_try, tx_pick in H. cbn [snd lenN length N.of_nat N.eqb] in H. rewrite Hf in H.
+    injection H as <- <- <-. auto.
+  - unfold cm_update_credit_tx, cm_update_credit in *. destruct (get_connection _ _ _) as [[i c]|]; [|injection H as <- <- <-; auto].
+    destruct (cn_shut c); [injection H as <- <- <-; auto|].
+    unfold tx_try, tx_pick in H. cbn [snd lenN length N.of_nat N.eqb] in H. rewrite Hf in H. injection H as <- <- <-. auto.
+  - unfold cm_shutdown_tx, cm_shutdown in *. destruct (get_connection _ _ _) as [[i c]|]; [|injection H as <- <- <-; auto].
+    unfold tx_try, tx_pick in H. cbn [snd lenN length N.of_nat N.eqb] in H. rewrite Hf in H. injection H as <- <- <-. auto.
+  - unfold cm_force_close_tx, cm_force_close in *. destruct (get_connection _ _ _) as [[i c]|]; [|injection H as <- <- <-; auto].
+    unfold tx_try, tx_pick in H. cbn [snd lenN length N.of_nat N.eqb] in H. rewrite Hf in H. injection H as <- <- <-. auto.
+Qed.
+
+(* a send that finds no credit and cannot send its credit request: nothing is marked pending, nothing changes *)
+Theorem send_credit_request_fail md m peer lp data ti e c i pf m' r tx :
+  get_connection (m_conns m) peer lp = Some (i, c) -> cn_shut c = false ->
+  credit_peer_free md (ci_cr (cn_info c)) = Some pf -> pf < lenN data -> cr_pending (ci_cr (cn_info c)) = false ->
+  tx_err (fst ti) = Some e ->
+  cm_step_tx md m (OpSend peer lp data) ti = (m', r, tx) ->
+  m' = m /\ r = Err e.
+Proof.
+  intros Hg Hs Hpf Hlt Hp Hf H. cbn [cm_step_tx] in H. unfold cm_send_tx in H. rewrite Hg, Hs in H. cbv zeta in H.
+  rewrite Hpf in H. destruct (N.leb_spec (lenN data) pf); [lia|]. rewrite Hp in H.
+  unfold tx_try, tx_pick in H. cbn [snd lenN length N.of_nat N.eqb] in H. rewrite Hf in H. now injection H as <- <- <-.
+Qed.
+
+(* C18_txfail_atomic: at every failure point but the four open ones the table is what the specification says: no
+   entry appears or disappears, no flag and no buffered byte changes, nothing of OUR side of the flow control
+   (tx_cnt, fwd_cnt, buf_alloc, the pending credit request) changes; all a packet may leave behind is what it says
+   about the peer *)
+Definition same_but_peer_view (a b : option sentry) : Prop :=
+  match a, b with
+  | None, None => True
+  | Some e, Some e' =>
+      se_est e' = se_est e /\ se_buf e' = se_buf e
+      /\ cr_tx_cnt (se_cr e') = cr_tx_cnt (se_cr e) /\ cr_fwd_cnt (se_cr e') = cr_fwd_cnt (se_cr e)
+      /\ cr_buf_alloc (se_cr e') = cr_buf_alloc (se_cr e) /\ cr_pending (se_cr e') = cr_pending (se_cr e)
+  | _, _ => False
+  end.
+
+Lemma same_but_peer_view_refl a : same_but_peer_view a a.
+Proof. destruct a; cbn; auto 10. Qed.
+
+Lemma sp_poll_failed_view s rx k : same_but_peer_view (slookup k (sp_tab s)) (slookup k (sp_tab (sp_poll_failed s rx))).
+Proof.
+  unfold sp_poll_failed. destruct rx as [[ulen bytes]|]; [|apply same_but_peer_view_refl].
+  destruct (read_header_and_body _) as [[h body]|]; [|apply same_but_peer_view_refl].
+  unfold sp_packet_failed. cbn [ev_dst ev_src a_cid a_port ev_type ev_buf_alloc ev_fwd_cnt].
+  destruct (negb _); [apply same_but_peer_view_refl|].
+  set (k0 := (vh_src_cid h, vh_src_port h, vh_dst_port h)).
+  destruct (slookup k0 (sp_tab s)) as [e|] eqn:E; [|apply same_but_peer_view_refl].
+  cbn [sp_put sp_with_tab sp_tab]. rewrite slookup_sset.
+  destruct (key_eqb_spec k0 k) as [<-|Hne]; [|apply same_but_peer_view_refl].
+  rewrite E. destruct (sp_etype _ _) as [| |[|]| | |]; cbn; auto 10.
+Qed.
+
+Lemma sp_poll_failed_listen s rx : sp_listen (sp_poll_failed s rx) = sp_listen s.
+Proof.
+  unfold sp_poll_failed. destruct rx as [[ulen bytes]|]; [|reflexivity].
+  destruct (read_header_and_body _) as [[h body]|]; [|reflexivity].
+  unfold sp_packet_failed. destruct (negb _); [reflexivity|]. destruct (slookup _ _); reflexivity.
+Qed.
+
+Theorem txfail_atomic md m o ti m' r tx :
+  KeysUnique m -> tx_fails_at md (abs m) o ti = true -> tx_open_point md (abs m) o = false ->
+  cm_step_tx md m o ti = (m', r, tx) ->
+  (exists e, r = Err e) /\ (forall p, memN p (m_listen m') = memN p (m_listen m))
+  /\ (forall k, same_but_peer_view (entry m k) (entry m' k))
+  /\ (match o with OpPoll _ => True | _ => forall k, entry m' k = entry m k end).
+Proof.
+  intros HK Hf Ho H.
+  pose proof (step_tx_refines md m (abs m) o ti HK (R_abs m)) as Hs. rewrite Hf, Ho in Hs. specialize (Hs eq_refl).
+  rewrite H in Hs. unfold sp_step_tx, tx_fails_at in *.
+  destruct (sp_step md (abs m) o) as [[s0 r0] tx0]. destruct tx0 as [|p rest]; [discriminate Hf|].
+  destruct (tx_err (tx_pick ti (snd p))) as [e|]; [|discriminate Hf].
+  cbn [sim] in Hs. destruct Hs as (-> & -> & HR' & HK').
+  split; [eauto|]. split.
+  { intros q. rewrite (R_listen _ _ HR'). destruct o; try reflexivity. now rewrite sp_poll_failed_listen. }
+  split.
+  - intros k. unfold entry at 2. rewrite (R_tab _ _ HR'), <- (entry_abs m k).
+    destruct o; try apply same_but_peer_view_refl. apply sp_poll_failed_view.
+  - destruct o; try exact I; intros k; unfold entry; rewrite (R_tab _ _ HR'); apply entry_abs.
+Qed.
+
+(* ------------------------------------------------------------------------------------------------ *)
+(* THE FOUR OPEN POINTS: the code as it stands does not do what the specification asks for (findings). *)
+(* Witnesses on reachable states; the harness shows the same on the real code (the scenarios named c18-finding) *)
+Definition tx_hdr (op sport dport len : N) : vhdr := mkHdr 2 3 sport dport len 1 op 0 50 0.
+Definition tx_fail_pop : txin := (TxPopFail EWrongToken, TxPopFail EWrongToken).
+Definition tx_fail_add : txin := (TxAddFail EQueueFull, TxAddFail EQueueFull).
+Definition tx_ops_a : list cop := [OpListen 80; OpPoll (ex_rx (tx_hdr VOP_REQUEST 1000 80 0) [])].
+Definition tx_ops_b : list cop :=
+  tx_ops_a ++ [OpPoll (ex_rx (tx_hdr VOP_RW 1000 80 3) [1; 2; 3]); OpPoll (ex_rx (tx_hdr VOP_SHUTDOWN 1000 80 0) [])].
+Definition ex_a : cm := fst (cm_run Debug (cm_new 3 8 64) tx_ops_a).
+Definition ex_b : cm := fst (cm_run Debug (cm_new 3 8 64) tx_ops_b).
+Definition ex_c : cm := fst (cm_run Debug (cm_new 3 8 64) [OpListen 80]).
+
+(* A. send: the peer granted 50 bytes; `add` refuses the chain (QueueFull: not a byte has left), yet three bytes of
+   the credit are spent *)
+Theorem send_fail_keeps_credit_refuted :
+  exists m' e e',
+    KeysUnique ex_a /\ entry ex_a (mk_key ex_peer 80) = Some e
+    /\ cm_step_tx Debug ex_a (OpSend ex_peer 80 [1; 2; 3]) tx_fail_add = (m', Err EQueueFull, [])
+    /\ entry m' (mk_key ex_peer 80) = Some e' /\ cr_tx_cnt (se_cr e) = 0 /\ cr_tx_cnt (se_cr e') = 3.
+Proof.
+  do 3 eexists. split; [apply (keys_unique Debug 3 8 64 tx_ops_a)|]. vm_compute. repeat split; reflexivity.
+Qed.
+
+(* B. recv: three bytes buffered, the peer has shut down; the recv that drains them cannot send its RST: it returns the
+   error, the three bytes are gone from the buffer and the next recv delivers nothing *)
+Theorem recv_fail_keeps_data_refuted :
+  exists m' tx e e' m'' tx'',
+    KeysUnique ex_b /\ entry ex_b (mk_key ex_peer 80) = Some e /\ se_buf e = [1; 2; 3] /\ se_shut e = true
+    /\ cm_step_tx Debug ex_b (OpRecv ex_peer 80 8) tx_fail_pop = (m', Err EWrongToken, tx)
+    /\ entry m' (mk_key ex_peer 80) = Some e' /\ se_buf e' = []
+    /\ cm_step Debug m' (OpRecv ex_peer 80 8) = (m'', Ok (VBytes []), tx'').
+Proof.
+  do 6 eexists. split; [apply (keys_unique Debug 3 8 64 tx_ops_b)|]. vm_compute. repeat split; reflexivity.
+Qed.
+
+(* C. a request for a NEW connection whose reply cannot be sent - the RESPONSE of a listening port, the RST of a port
+   nobody listens on -: not reported, but the connection the closure pushed is in the table *)
+Theorem request_fail_no_entry_refuted :
+  exists m1 tx1 e1 m2 tx2 e2,
+    KeysUnique ex_c /\ entry ex_c (mk_key ex_peer 80) = None /\ entry ex_c (mk_key ex_peer 81) = None
+    /\ cm_step_tx Debug ex_c (OpPoll (ex_rx (tx_hdr VOP_REQUEST 1000 80 0) [])) tx_fail_pop = (m1, Err EWrongToken, tx1)
+    /\ entry m1 (mk_key ex_peer 80) = Some e1 /\ se_est e1 = false
+    /\ cm_step_tx Debug ex_c (OpPoll (ex_rx (tx_hdr VOP_REQUEST 1000 81 0) [])) tx_fail_add = (m2, Err EQueueFull, tx2)
+    /\ entry m2 (mk_key ex_peer 81) = Some e2 /\ cm_is_local_port_used m2 81 = true.
+Proof.
+  do 6 eexists. split; [apply (keys_unique Debug 3 8 64 [OpListen 80])|]. vm_compute. repeat split; reflexivity.
+Qed.
+
+(* D. the peer shuts a drained connection down and the RST cannot be sent: the shutdown is forgotten - the connection
+   is not marked, and a send goes out to a peer that has shut down *)
+Theorem shutdown_fail_remembered_refuted :
+  exists m' tx e' m'' tx'',
+    KeysUnique ex_a
+    /\ cm_step_tx Debug ex_a (OpPoll (ex_rx (tx_hdr VOP_SHUTDOWN 1000 80 0) [])) tx_fail_pop = (m', Err EWrongToken, tx)
+    /\ entry m' (mk_key ex_peer 80) = Some e' /\ se_shut e' = false
+    /\ cm_step Debug m' (OpSend ex_peer 80 [1]) = (m'', Ok VUnit, tx'').
+Proof.
+  do 5 eexists. split; [apply (keys_unique Debug 3 8 64 tx_ops_a)|]. vm_compute. repeat split; reflexivity.
+Qed.
+
+(* hence the refinement of sp_step_tx cannot hold without the exception of the open points *)
+Theorem step_tx_refines_everywhere_refuted :
+  ~ (forall md m s o ti, KeysUnique m -> R m s -> sim (cm_step_tx md m o ti) (sp_step_tx md s o ti)).
+Proof.
+  intros H.
+  specialize (H Debug ex_a (abs ex_a) (OpSend ex_peer 80 [1; 2; 3]) tx_fail_add
+                (keys_unique Debug 3 8 64 tx_ops_a) (R_abs ex_a)).
+  destruct (cm_step_tx Debug ex_a (OpSend ex_peer 80 [1; 2; 3]) tx_fail_add) as [[m' r] tx] eqn:E.
+  destruct (sp_step_tx Debug (abs ex_a) (OpSend ex_peer 80 [1; 2; 3]) tx_fail_add) as [[s' r'] tx'] eqn:E'.
+  cbn [sim] in H. destruct H as (_ & _ & HR & _). pose proof (R_tab _ _ HR (mk_key ex_peer 80)) as Hk.
+  vm_compute in E. injection E as <- _ _. vm_compute in E'. injection E' as <- _ _. vm_compute in Hk. discriminate Hk.
+Qed.
+
+(* ------------------------------------------------------------------------------------------------ *)
+(* Non-vacuity *)
+Example step_tx_refines_nonvacuous :
+  KeysUnique ex_a /\ R ex_a (abs ex_a)
+  /\ tx_fails_at Debug (abs ex_a) (OpUpdateCredit ex_peer 80) tx_fail_pop = true
+  /\ tx_open_point Debug (abs ex_a) (OpUpdateCredit ex_peer 80) = false
+  /\ tx_fails_at Debug (abs ex_a) (OpPoll (ex_rx (tx_hdr VOP_CREDIT_REQUEST 1000 80 0) [])) tx_fail_add = true
+  /\ tx_open_point Debug (abs ex_a) (OpPoll (ex_rx (tx_hdr VOP_CREDIT_REQUEST 1000 80 0) [])) = false
+  /\ tx_fails_at Debug (abs ex_a) (OpPoll (ex_rx (tx_hdr VOP_SHUTDOWN 1000 80 0) [])) tx_fail_add = true
+  /\ tx_open_point Debug (abs ex_a) (OpPoll (ex_rx (tx_hdr VOP_SHUTDOWN 1000 80 0) [])) = true.
+Proof.
+  split; [apply (keys_unique Debug 3 8 64 tx_ops_a)|]. split; [apply R_abs|]. vm_compute. repeat split; reflexivity.
+Qed.
+
+Example connect_fail_nonvacuous :
+  entry ex_a (mk_key ex_peer 55) = None /\ tx_err (fst tx_fail_pop) = Some EWrongToken
+  /\ header_only_op (OpForceClose ex_peer 80) = true.
+Proof. vm_compute. auto. Qed.
+
+Example send_credit_request_fail_nonvacuous :
+  exists i c, get_connection (m_conns ex_a) ex_peer 80 = Some (i, c) /\ cn_shut c = false
+    /\ credit_peer_free Debug (ci_cr (cn_info c)) = Some 50 /\ 50 < lenN (repeat 7 51) /\ cr_pending (ci_cr (cn_info c)) = false.
+Proof. do 2 eexists. vm_compute. repeat split; reflexivity. Qed.
+
+(* a whole history with failures through the real step function: a connect that fails (QueueFull) and is tried again, an
+   accepted request, a credit request whose reply fails (WrongToken: the device saw the packet), a force_close that fails
+   and is tried again; it is conforming, so the abstract map under failure produces the same outputs *)
+Definition tx_history : list (cop * txin) :=
+  [(OpListen 80, tx_all_ok);
+   (OpConnect ex_peer 55, tx_fail_add);
+   (OpRecv ex_peer 55 4, tx_all_ok);
+   (OpPortUsed 55, tx_all_ok);
+   (OpConnect ex_peer 55, tx_all_ok);
+   (OpPoll (ex_rx (tx_hdr VOP_REQUEST 1000 80 0) []), tx_all_ok);
+   (OpPoll (ex_rx (tx_hdr VOP_CREDIT_REQUEST 1000 80 0) []), tx_fail_pop);
+   (OpForceClose ex_peer 80, tx_fail_pop);
+   (OpEstablished ex_peer 80, tx_all_ok);
+   (OpForceClose ex_peer 80, tx_all_ok);
+   (OpEstablished ex_peer 80, tx_all_ok)].
+
+Example tx_history_runs :
+  tx_conforming Debug (sp_new 3 8 64) tx_history = true
+  /\ snd (cm_run_tx Debug (cm_new 3 8 64) tx_history)
+     = [(Ok VUnit, []);
+        (Err EQueueFull, []);
+        (Err (serr SE_NotConnected 0), []);
+        (Ok (VNum 0), []);
+        (Ok VUnit, [(mkHdr 3 2 55 1000 0 1 VOP_REQUEST 0 8 0, [])]);
+        (Ok (VEvent (Some (mkEvent (mkAddr 2 1000) (mkAddr 3 80) 50 0 EtRequest))), [(mkHdr 3 2 80 1000 0 1 VOP_RESPONSE 0 8 0, [])]);
+        (Err EWrongToken, [(mkHdr 3 2 80 1000 0 1 VOP_CREDIT_UPDATE 0 8 0, [])]);
+        (Err EWrongToken, [(mkHdr 3 2 80 1000 0 1 VOP_RST 0 8 0, [])]);
+        (Ok (VNum 1), []);
+        (Ok VUnit, [(mkHdr 3 2 80 1000 0 1 VOP_RST 0 8 0, [])]);
+        (Err (serr SE_NotConnected 0), [])].
+Proof. vm_compute. split; reflexivity. Qed.
